@@ -176,7 +176,9 @@ let run path =
      | None -> ());
     if !bad then incr diffs;
     (* specification clauses on the implementation's own observations *)
-    (match next, result_of_s res with
+    (* a call that has not returned has changed nothing that can be observed: judge it against the unchanged state *)
+    let judged = match next with Some nx -> Some nx | None -> if res = "blocked" then Some prev else None in
+    (match judged, result_of_s res with
      | Some nx, Some ires ->
        (* a Publish issued from the acknowledgement of an Unsubscribe: a delivery on account of a removed
           filter is a violation of the unsubscribe clause *)
@@ -226,7 +228,10 @@ let run path =
       | "snap" :: _ :: toks ->
         (match !pend_op with
          | Some (k, args) ->
-           handle k args !pend_res (if toks = ["none"] then None else Some toks);
+           (try handle k args !pend_res (if toks = ["none"] then None else Some toks)
+            with Failure msg ->
+              (* a harness that crashed in the middle of a line leaves a truncated last record *)
+              incr diffs; Printf.printf "diff %s/%s unreadable record (%s): harness output truncated?\n" !hist k msg);
            pend_op := None
          | None -> ())
       | "hang" :: rest -> incr diffs; Printf.printf "diff %s hang %s\n" !hist (S.concat " " rest)
